@@ -6,13 +6,15 @@
      dend  digest of the same result object re-serialised after all later calls finished
      base  digest of the result of the same (text, options) in a fresh single-threaded process
      same_input  the text object was unchanged after the call *)
-EXTENDS Integers, Sequences, Json, IOUtils, TLC
+EXTENDS Integers, Sequences, Json, IOUtils, TLC, Hits
 Traces == JsonDeserialize(IOEnv.TRACE_FILE)
 NT == Len(Traces)
 VARIABLES tid, bucket
 NB == 64
 T(t) == Traces[t]
-Clauses == {"C15.samecall", "C15.frozen", "C15.input"}
+ClauseSeq == <<"C15.samecall", "C15.frozen", "C15.input">>
+Clauses == {ClauseSeq[ci] : ci \in DOMAIN ClauseSeq}
+ASSUME PrintT(<<"CLAUSES", ToJson(ClauseSeq)>>)
 Holds(cl, t) ==
   CASE cl = "C15.samecall" -> T(t).d = T(t).base
     [] cl = "C15.frozen"   -> T(t).dend = T(t).d
@@ -21,6 +23,9 @@ Holds(cl, t) ==
 TInit == tid = 0 /\ bucket \in 0..(NB - 1)
 TNext == tid = 0 /\ (\E t \in {x \in 1..NT : x % NB = bucket} : tid' = t) /\ UNCHANGED bucket
 TSpec == TInit /\ [][TNext]_<<tid, bucket>>
-Judge == tid # 0 => \A cl \in Clauses : Holds(cl, tid) \/ PrintT(<<"FAIL", tid, cl>>)
+(* a call is non-trivial when it returned something (the digest of the empty result differs) *)
+Exercised(cl, t) == T(t).nonempty
+Judge == tid # 0 => (/\ \A cl \in Clauses : Holds(cl, tid) \/ PrintT(<<"FAIL", tid, cl>>)
+   /\ PrintT(<<"HIT", tid, Mask([ci \in DOMAIN ClauseSeq |-> Exercised(ClauseSeq[ci], tid)])>>))
 Done == tid # 0 => PrintT(<<"DONE", tid>>)
 =============================================================================
